@@ -351,10 +351,14 @@ def emit_item(spec, log, vacuity=False):
             if vacuity and 'sigonly' not in spec.opts:
                 # must-fail twin (DESIGN 2.7): `ensures false` has to be refuted for every contracted body
                 sp = strip_line_comments(sp).rstrip()
+                # a distinct uninterpreted flag per function: callers of this function learn nothing
+                # that helps them refute their own flag
+                VAC_COUNTER[0] += 1
+                bogus = '!crate::vacuity_flag(%d) /*VACUITY*/' % VAC_COUNTER[0]
                 if re.search(r'\bensures\b', sp):
-                    sp = sp.rstrip(',') + ',\n false /*VACUITY*/,'
+                    sp = sp.rstrip(',') + ',\n ' + bogus + ','
                 else:
-                    sp = sp + '\n ensures false /*VACUITY*/,'
+                    sp = sp + '\n ensures ' + bogus + ','
             ed.ins(st[body_open].start, '\n' + sp + '\n')
             used.add('spec')
         if 'sigonly' in spec.opts:
@@ -462,6 +466,10 @@ def split_path_opts(rest):
     return ' '.join(words), parse_opts(optwords)
 
 
+INCLUDED = []
+VAC_COUNTER = [0]
+
+
 class Region:
     def __init__(self, name, props, kind, frag, first_line):
         self.name = name
@@ -479,7 +487,7 @@ def expand_fragment(frag_name, text, out_lines, regions, log, vacuity=False):
     lines = text.split('\n')
     cur_region = None
     i = 0
-    open_stack = []
+    included = INCLUDED
 
     def start_region(name, props, kind):
         nonlocal cur_region
@@ -507,7 +515,14 @@ def expand_fragment(frag_name, text, out_lines, regions, log, vacuity=False):
             continue
         d = md.group(1).strip()
         i += 1
-        if d.startswith('region '):
+        if d.startswith('include '):
+            inc = d.split()[1]
+            end_region()
+            inc_text = open(os.path.join(VX, 'mods', inc + '.rs')).read()
+            out_lines.append('// ---- include %s' % inc)
+            expand_fragment(inc, inc_text, out_lines, regions, log, vacuity)
+            included.append(inc)
+        elif d.startswith('region '):
             words = d.split()
             opts = parse_opts(words[2:])
             start_region(words[1], [p for p in opts.get('props', '').split(',') if p], 'ghost')
@@ -603,6 +618,7 @@ HEADER = """#![allow(unused_imports, dead_code, unused_variables, unused_mut, un
 use vstd::prelude::*;
 verus! {
 global size_of usize == 8;
+pub uninterp spec fn vacuity_flag(k: int) -> bool;
 """
 FOOTER = """
 } // verus!
@@ -627,6 +643,7 @@ def build_unit(unit, outdir, vacuity=False):
     out_lines.pop()  # trailing empty
     regions = []
     log = []
+    del INCLUDED[:]
     for f in frags:
         text = open(os.path.join(VX, 'mods', f + '.rs')).read()
         out_lines.append('// ==== fragment %s' % f)
@@ -637,7 +654,7 @@ def build_unit(unit, outdir, vacuity=False):
     with open(out, 'w') as fh:
         fh.write('\n'.join(out_lines))
     meta = {
-        'unit': unit, 'file': out, 'fragments': frags,
+        'unit': unit, 'file': out, 'fragments': frags + list(INCLUDED),
         'regions': [{'name': r.name, 'props': r.props, 'kind': r.kind, 'frag': r.frag,
                      'first_line': r.first_line, 'last_line': r.last_line, 'path': r.path} for r in regions],
         'items': log,
